@@ -7,7 +7,7 @@ BASE = {'ev': '', 'p': '', 'op': '', 'job': 0, 'qi': 0, 'b': 0, 'n': 0, 'res': '
         'st': '', 'out': '', 'items': [], 'ecls': '', 'ekey': 0, 'wss': '', 'conc': 0, 'pendingb': 0,
         'msub': 0, 'mcomp': 0, 'msucc': 0, 'mfail': 0, 'blocked': [], 'pending': 0, 'qpending': [], 'processing': 0, 'idle': 0,
         'sub': 0, 'comp': 0, 'succ': 0, 'fail': 0, 'jst': {'0': ''}, 'cpool': 0, 'cloop': 0, 'creaper': 0, 'cctxl': 0, 'cdrain': 0,
-        'peak': 0, 'errs': 0, 'settled': False, 'eseq': 0, 'ack': '', 'refused': False, 'ep': '', 'line': 0}
+        'peak': 0, 'errs': 0, 'settled': False, 'cons': 0, 'csub': [], 'eseq': 0, 'ack': '', 'refused': False, 'ep': '', 'line': 0}
 
 
 def errclass(s):
@@ -46,6 +46,12 @@ def header(prog, ncpu):
                     jobs.append({'key': it['job'], 'q': o.get('q', 0) + 1, 'prio': it.get('prio', 0), 'b': o['b'],
                                  'out': prog.get('outcome', {}).get(str(it['job']), 'ok')})
                 batches.append({'b': o['b'], 'q': o.get('q', 0) + 1, 'items': its})
+    pre = []
+    for e in cfg.get('preload') or []:
+        if not e.get('raw') and e['job'] not in seen:
+            seen.add(e['job'])
+            pre.append(e['job'])
+            jobs.append({'key': e['job'], 'q': 1, 'prio': e.get('prio', 0), 'b': 0, 'out': prog.get('outcome', {}).get(str(e['job']), 'ok')})
     queues = [] if cfg.get('nobind') else list(cfg.get('queues') or [])
     for c in prog['clients']:
         for o in c['ops']:
@@ -56,7 +62,11 @@ def header(prog, ncpu):
               'wk': cfg.get('wk', 'plain'), 'hconc': cfg.get('conc', 1), 'ncpu': ncpu, 'queues': queues, 'jobs': jobs, 'batches': batches,
               'clients': [c['name'] for c in prog['clients']], 'expiry': cfg.get('expiry_us', 0), 'ratio': cfg.get('ratio', 0),
               'ctx': bool(cfg.get('ctx')), 'strategy': cfg.get('strategy') or 'rr', 'idgen': bool(cfg.get('idgen')),
-              'nobind': bool(cfg.get('nobind')), 'family': prog.get('family', '')})
+              'nobind': bool(cfg.get('nobind')), 'family': prog.get('family', ''), 'consumers': cfg.get('consumers') or 1, 'preload': pre})
+    # the handles of the other consumers of a shared queue are the same queue
+    if (cfg.get('consumers') or 1) > 1:
+        for j in jobs:
+            j['q'] = 1
     h['conc'] = cfg.get('conc', 1)
     return h
 
@@ -110,7 +120,7 @@ def normalise(ep, ncpu):
             out.append(d)
         elif ev == 'wf.enter':
             out.append(mk(ev='enter', p=e['p'], job=e['job'], id=e.get('id', ''), idgen=str(e.get('id', '')).startswith('gen-'),
-                          st=e.get('status', ''), line=e['seq']))
+                          st=e.get('status', ''), cons=e.get('cons', 0), line=e['seq']))
         elif ev == 'wf.exit':
             out.append(mk(ev='exit', p=e['p'], job=e['job'], out=e.get('out', ''), st=e.get('status', ''), line=e['seq']))
         elif ev == 'disp.deq':
@@ -118,7 +128,7 @@ def normalise(ep, ncpu):
                 out.append(mk(ev='deq', p=e['p'], job=e['job'], line=e['seq']))
         elif ev in ('ad.enq', 'ad.deq', 'ad.ack', 'ad.purge'):
             out.append(mk(ev='ad', p=e.get('p', ''), op=ev[3:], job=max(e.get('job', 0), 0), ok=bool(e.get('ok', False)), eseq=e.get('eseq', 0) + 1 if 'eseq' in e else 0,
-                          ack=e.get('ack', ''), refused=bool(e.get('refused', False)), qi=e.get('a', 0) + 1, line=e['seq']))
+                          ack=e.get('ack', ''), refused=bool(e.get('refused', False)), qi=e.get('a', 0) + 1, n=e.get('nsubs', 0), line=e['seq']))
         elif ev == 'quiescent':
             c = e.get('census') or {}
             jst = {'0': ''}
@@ -128,7 +138,9 @@ def normalise(ep, ncpu):
                           qpending=e.get('qpending') or [], processing=e['processing'], idle=e['idle'], conc=e['conc'], sub=e['sub'],
                           comp=e['comp'], succ=e['succ'], fail=e['fail'], jst=jst, cpool=c.get('pool', 0), cloop=c.get('loop', 0),
                           creaper=c.get('reaper', 0), cctxl=c.get('ctxl', 0), cdrain=c.get('drain', 0), peak=e.get('peak', 0), errs=e.get('errs', 0),
-                          settled=bool(e.get('settled', False)), line=e['seq']))
+                          settled=bool(e.get('settled', False)), csub=e.get('csub') or [], line=e['seq']))
+        elif ev == 'codec':
+            out.append(mk(ev='codec', ok=bool(e.get('ok')), res=e.get('what', ''), id=e.get('type', ''), line=e.get('seq', 0)))
     if ep.get('crash'):
         out.append(mk(ev='crash', res=ep['crash']))
     for r in ep.get('races', []):
